@@ -16,7 +16,7 @@ def marshalInner (i : Inner) : String :=
 /-- the real state-root function: sha256( ‖_{accts} (addr ‖ json(acct)? ‖ sha256(‖ k‖v)) ‖ prevRoot ) -/
 def realH (p : RootPre) : String :=
   let body := p.accts.foldl (fun (b : ByteArray) a =>
-    let sd := a.stateData.foldl (fun (x : ByteArray) kv => (x ++ kv.1.toUTF8) ++ (kv.2.getD "").toUTF8) ByteArray.empty
+    let sd := (stateDataText a.stateData).toUTF8
     let b1 := b ++ addrBytes a.addr
     let b2 := match a.acct with
       | some i => b1 ++ (marshalInner i).toUTF8
